@@ -350,7 +350,11 @@ def run_history(rng, upo, ncalls, variant, script=None):
         if upo == "N" and c["moc"] == "ok" and learned[fam] != "F" and started:
             if not srv and learned[fam] == "N":
                 learned[fam] = "F"
-            elif srv and tradok:
+            elif srv and tradok and (obs["res"] == "done" or obs["faulted"]
+                                     or obs["yielded"]):
+                # the flag becomes True only when the Open itself succeeded;
+                # an Open the server rejects (timeout / filter language it
+                # does not accept) leaves it as it was
                 learned[fam] = "T"
             elif srv and not tradok and learned[fam] == "N" and \
                     obs["code"] in (1, 7):
